@@ -10,7 +10,7 @@
 use std::borrow::Borrow;
 
 #[cfg(kani)]
-pub const CAP: usize = 24;
+pub const CAP: usize = 8;
 #[cfg(not(kani))]
 pub const CAP: usize = 40;
 
